@@ -74,6 +74,14 @@ def cases(tier: str, seed: int) -> List[Dict[str, Any]]:
                 for entry in ("raw", "SGD", "AdamW"):
                     out.append({"st": st, "form": "groups", "pform": pform, "lrkind": "float",
                                 "wd": 0.01, "mix": mix, "indep": 1, "entry": entry, "seed": seed})
+        if any(g[2] for g in st):
+            # an explicit per-group weight_decay of exactly 0 (the usual no-decay group) next to a
+            # non-zero global decay, and an explicit group lr next to a different global lr
+            for wd in (0.01, 0.5):
+                for indep in (1, 0):
+                    for entry in ("raw", "SGD", "AdamW"):
+                        out.append({"st": st, "form": "groups", "lrkind": "float", "wd": wd, "mix": 0, "indep": indep,
+                                    "entry": entry, "seed": seed, "own_wd": 0.0})
         if anyown and sum(g[1] for g in st) >= 2:
             for entry in ("raw", "SGD", "AdamW"):
                 out.append({"st": st, "form": "groups", "lrkind": "shared_own", "wd": 0.01,
@@ -130,11 +138,13 @@ def run_case(case: Dict[str, Any]) -> Dict[str, Any]:
     gen = torch.Generator().manual_seed(derive_seed(case["seed"], "C11") % (2**31))
     viol: List[Dict[str, str]] = []
     ident = f"{entry}|form={form}|lr={lrkind}|indep={int(indep)}|mix={mix}"
+    if "own_wd" in case:
+        ident += "|own_wd=0"
     one_shot = case.get("pform", "list") in ("generator", "iter")
     if one_shot:
         ident += "|group_params=" + case["pform"]
 
-    GLOBAL_LR, OWN_LR, OWN_WD = 0.5, 0.125, 0.25
+    GLOBAL_LR, OWN_LR, OWN_WD = 0.5, 0.125, case.get("own_wd", 0.25)
     extras = {
         "raw": {"betas": (0.8, 0.9), "foo": "bar"},
         "SGD": {"momentum": 0.0, "dampening": 0.0},
